@@ -102,8 +102,8 @@ const LEAVES: [LeafDef; 26] = [
     leaf("s", LV::S("ab"), "ident", "strconst"),                  // 15
     leaf("t", LV::S("b"), "ident", "strconst"),                   // 16
     leaf("*", LV::Pc, "pc", "star"),                              // 17
-    leaf("<w", LV::N(W & 255), "<name", "const>65535"),           // 18
-    leaf(">w", LV::N((W >> 8) & 255), ">name", "const>65535"),    // 19
+    leaf("<w", LV::N(W & 255), "modifier", "<name"),           // 18
+    leaf(">w", LV::N((W >> 8) & 255), "modifier", ">name"),    // 19
     leaf("defined(c)", LV::N(1), "defined()", "defined-name"),    // 20
     leaf("defined(nope)", LV::N(0), "defined()", "undefined-name"), // 21
     leaf("\"a{t}\"", LV::S("ab"), "string", "interpolated"),      // 22
@@ -133,7 +133,7 @@ const DEEP_LEAVES: [u8; 4] = [0, 2, 3, 7];
 // ------------------------------------------------------------------------------------------------
 // trees
 
-#[derive(Clone, Debug, PartialEq, Eq, Hash)]
+#[derive(Clone, Debug, PartialEq, Eq, Hash, PartialOrd, Ord)]
 enum T {
     L(u8),
     /// non-negative decimal literal (only produced while generalising a failing case)
@@ -256,17 +256,6 @@ fn children(t: &T) -> Vec<&T> {
         T::B(_, l, r) => vec![l, r],
         T::Not(e) | T::Neg(e) | T::P(e) => vec![e],
         _ => vec![],
-    }
-}
-
-fn contains_any(t: &T, set: &HashSet<T>) -> bool {
-    if set.contains(t) {
-        return true;
-    }
-    match t {
-        T::B(_, l, r) => contains_any(l, set) || contains_any(r, set),
-        T::Not(e) | T::Neg(e) | T::P(e) => contains_any(e, set),
-        _ => false,
     }
 }
 
@@ -590,6 +579,189 @@ fn slice_at(seg_start: i64, bytes: &[u8], pc: i64, len: usize) -> &[u8] {
 }
 
 // ------------------------------------------------------------------------------------------------
+// failure patterns (= signatures)
+
+fn natural_dir(v: &V) -> Dir {
+    match v {
+        V::N(_) => Dir::Dword,
+        V::S(_) => Dir::Text(0),
+    }
+}
+
+fn literal_for(v: &V) -> Option<T> {
+    match v {
+        V::N(n) if *n >= 0 => Some(T::Lit(*n)),
+        V::N(n) => n.checked_neg().map(|m| T::Neg(Box::new(T::Lit(m)))),
+        V::S(s) => Some(T::SLit(s.clone())),
+    }
+}
+
+fn value_class(v: &V) -> &'static str {
+    match v {
+        V::S(_) => "str",
+        V::N(0) => "0",
+        V::N(1) => "1",
+        V::N(n) if *n < 0 => "<0",
+        V::N(n) if *n <= 255 => "2..255",
+        V::N(_) => ">255",
+    }
+}
+
+/// operands of a node together with "is rendered inside parentheses supplied by the renderer"
+fn operands(x: &T) -> Vec<(&T, bool)> {
+    match x {
+        T::Not(e) | T::Neg(e) => vec![(e, !is_atom(e))],
+        T::P(e) => vec![(e, false)],
+        T::B(op, l, r) => {
+            let paren = |c: &T, left: bool| matches!(c, T::B(cop, _, _) if !reading_fixed(*cop, *op, left));
+            vec![(l, paren(l, true)), (r, paren(r, false))]
+        }
+        _ => vec![],
+    }
+}
+
+fn with_operand(x: &T, k: usize, new: T) -> T {
+    let b = Box::new;
+    match x {
+        T::Not(_) => T::Not(b(new)),
+        T::Neg(_) => T::Neg(b(new)),
+        T::P(_) => T::P(b(new)),
+        T::B(op, l, r) => {
+            if k == 0 {
+                T::B(*op, b(new), r.clone())
+            } else {
+                T::B(*op, l.clone(), b(new))
+            }
+        }
+        other => other.clone(),
+    }
+}
+
+/// coarse syntactic form of an operand as it appears in the text
+fn operand_form(e: &T, ctx_paren: bool) -> String {
+    if ctx_paren {
+        return "(x)".into();
+    }
+    match e {
+        T::L(i) => LEAVES[*i as usize].form.to_string(),
+        T::Lit(_) => "int".into(),
+        T::SLit(s) => {
+            if s.contains('{') {
+                "interpolated".into()
+            } else {
+                "strlit".into()
+            }
+        }
+        T::B(op, _, _) => format!("x{}y", OPS[*op as usize]),
+        T::Not(_) => "!x".into(),
+        T::Neg(x) => {
+            if matches!(**x, T::Lit(_)) {
+                "int".into()
+            } else {
+                "-x".into()
+            }
+        }
+        T::P(_) => "(x)".into(),
+    }
+}
+
+/// finer form of a parenthesised operand: names what is inside the parentheses
+fn operand_form_detailed(e: &T) -> String {
+    match e {
+        T::P(x) => operand_form_detailed(x),
+        T::B(op, _, _) => format!("(x{}y)", OPS[*op as usize]),
+        T::Not(_) => "(!x)".into(),
+        T::Neg(_) => "(-x)".into(),
+        other => format!("({})", operand_form(other, false)),
+    }
+}
+
+/// class of one operand; `None` = any
+#[derive(Clone, Debug, PartialEq, Eq, Hash, PartialOrd, Ord)]
+struct OpPat {
+    form: Option<String>,
+    vc: Option<&'static str>,
+}
+
+impl OpPat {
+    fn text(&self) -> String {
+        match (&self.form, self.vc) {
+            (None, None) => "int".into(),
+            (None, Some("str")) => "str".into(),
+            (None, Some(vc)) => format!("int:{}", vc),
+            (Some(f), None) => f.clone(),
+            (Some(f), Some("str")) => f.clone(),
+            (Some(f), Some(vc)) => format!("{}:{}", f, vc),
+        }
+    }
+    fn matches(&self, e: &T, ctx_paren: bool, pc: i64) -> bool {
+        if let Some(f) = &self.form {
+            let coarse = operand_form(e, ctx_paren);
+            if *f != coarse && !(coarse == "(x)" && *f == operand_form_detailed(e)) {
+                return false;
+            }
+        }
+        if let Some(vc) = self.vc {
+            match eval(e, pc) {
+                Ok(v) => value_class(&v) == vc,
+                Err(_) => false,
+            }
+        } else {
+            true
+        }
+    }
+}
+
+/// A failing construct: what a signature names, and what later (larger) trees are checked against.
+#[derive(Clone, Debug, PartialEq, Eq, Hash, PartialOrd, Ord)]
+enum Pat {
+    Leaf(u8),
+    Exact(T),
+    /// 0 = `!x`, 1 = `-x`, 2 = `(x)`
+    Un(u8, OpPat),
+    Bin(u8, OpPat, OpPat),
+}
+
+impl Pat {
+    fn sig(&self) -> String {
+        match self {
+            Pat::Leaf(i) => {
+                let d = &LEAVES[*i as usize];
+                format!("expr:{}:{}", d.kind, d.form)
+            }
+            Pat::Exact(T::SLit(s)) => format!("expr:string:{}", if s.contains('{') { "interpolated" } else { "plain" }),
+            Pat::Exact(_) => "expr:literal:int".into(),
+            Pat::Un(k, o) => format!("expr:{}:{}", ["!x", "-x", "()"][*k as usize], o.text()),
+            Pat::Bin(op, l, r) => format!("expr:{}:{},{}", OPS[*op as usize], l.text(), r.text()),
+        }
+    }
+    fn matches_node(&self, x: &T, pc: i64) -> bool {
+        match (self, x) {
+            (Pat::Leaf(i), T::L(j)) => i == j,
+            (Pat::Exact(t), x) => t == x,
+            (Pat::Un(0, o), T::Not(e)) | (Pat::Un(1, o), T::Neg(e)) => o.matches(e, !is_atom(e), pc),
+            (Pat::Un(2, o), T::P(e)) => o.matches(e, false, pc),
+            (Pat::Bin(op, lp, rp), T::B(xop, _, _)) if op == xop => {
+                let o = operands(x);
+                lp.matches(o[0].0, o[0].1, pc) && rp.matches(o[1].0, o[1].1, pc)
+            }
+            _ => false,
+        }
+    }
+}
+
+fn contains_instance(t: &T, pats: &[Pat], pc: i64) -> bool {
+    if pats.iter().any(|p| p.matches_node(t, pc)) {
+        return true;
+    }
+    match t {
+        T::B(_, l, r) => contains_instance(l, pats, pc) || contains_instance(r, pats, pc),
+        T::Not(e) | T::Neg(e) | T::P(e) => contains_instance(e, pats, pc),
+        _ => false,
+    }
+}
+
+// ------------------------------------------------------------------------------------------------
 // engine state
 
 struct Failure {
@@ -600,10 +772,10 @@ struct Failure {
 struct G<'a> {
     ctx: &'a Ctx,
     /// subtrees known to fail from earlier (completed) families; trees containing one are not run
-    bad: RwLock<HashSet<T>>,
+    bad: RwLock<Vec<Pat>>,
     bad_nonempty: AtomicBool,
     /// found in the running family, merged into `bad` when the family is done
-    staged_bad: Mutex<HashSet<T>>,
+    staged_bad: Mutex<HashSet<Pat>>,
     memo: Mutex<HashMap<(String, Dir, i64), Outcome>>,
     isolated: AtomicU64,
     capped: AtomicBool,
@@ -612,7 +784,11 @@ struct G<'a> {
 }
 
 const MAX_ISOLATED: u64 = 20_000;
-const BATCH: usize = 200;
+const BATCH_DEFAULT: usize = 200;
+fn batch_size() -> usize {
+    static B: std::sync::OnceLock<usize> = std::sync::OnceLock::new();
+    *B.get_or_init(|| std::env::var("C03_BATCH").ok().and_then(|s| s.parse().ok()).unwrap_or(BATCH_DEFAULT))
+}
 const CHUNK: u64 = 4096;
 
 impl<'a> G<'a> {
@@ -743,7 +919,7 @@ impl<'a> G<'a> {
         let mid = items.len() / 2;
         self.check_items(&items[..mid], false, out);
         self.check_items(&items[mid..], false, out);
-        if out.len() == before {
+        if out.len() == before && !self.capped.load(Ordering::Relaxed) {
             // both halves pass alone, together they fail
             let d = match &whole {
                 Some(o) => o.describe(),
@@ -757,18 +933,11 @@ impl<'a> G<'a> {
         }
     }
 
-    fn natural_dir(v: &V) -> Dir {
-        match v {
-            V::N(_) => Dir::Dword,
-            V::S(_) => Dir::Text(0),
-        }
-    }
-
     /// descends to the smallest subtree that fails when observed alone (same pc)
     fn smallest(&self, tree: &T, pc: i64, outcome: Outcome) -> (T, Outcome) {
         for c in children(tree) {
             if let Ok(v) = eval(c, pc) {
-                let o = self.single_outcome(c, Self::natural_dir(&v), pc);
+                let o = self.single_outcome(c, natural_dir(&v), pc);
                 if o != Outcome::Pass {
                     return self.smallest(c, pc, o);
                 }
@@ -777,115 +946,97 @@ impl<'a> G<'a> {
         (tree.clone(), outcome)
     }
 
-    fn literal_for(v: &V) -> Option<T> {
-        match v {
-            V::N(n) if *n >= 0 => Some(T::Lit(*n)),
-            V::N(n) => n.checked_neg().map(|m| T::Neg(Box::new(T::Lit(m)))),
-            V::S(s) => Some(T::SLit(s.clone())),
-        }
-    }
-
-    fn value_class(v: &V) -> &'static str {
-        match v {
-            V::S(_) => "str",
-            V::N(0) => "0",
-            V::N(1) => "1",
-            V::N(n) if *n < 0 => "<0",
-            V::N(n) if *n <= 255 => "2..255",
-            V::N(_) => ">255",
-        }
-    }
-
-    fn form_of(t: &T) -> String {
-        match t {
-            T::L(i) => LEAVES[*i as usize].form.to_string(),
-            T::Lit(_) => "int".into(),
-            T::SLit(s) => if s.contains('{') { "interpolated".into() } else { "strlit".into() },
-            T::B(op, _, _) => format!("({})", OPS[*op as usize]),
-            T::Not(_) => "!x".into(),
-            T::Neg(e) => if matches!(**e, T::Lit(_)) { "int".into() } else { "-x".into() },
-            T::P(_) => "(x)".into(),
-        }
-    }
-
-    /// Signature of a failing smallest subtree: operator + operand classes, operands generalised
-    /// to plain literals of the same value wherever the failure survives that.
-    fn signature(&self, x: &T, pc: i64) -> String {
-        let fails = |t: &T| -> bool {
+    /// Pattern (= signature) of a failing smallest subtree: operator + one class per operand.
+    /// Each operand is generalised as far as the failure survives: first its form (replaced by a
+    /// plain literal of the same value, or by a parenthesised literal), then its value (literals of
+    /// the other value classes).
+    fn pattern(&self, x: &T, pc: i64) -> Pat {
+        let fails = |t: &T| -> Option<bool> {
             match eval(t, pc) {
-                Ok(v) => self.single_outcome(t, Self::natural_dir(&v), pc) != Outcome::Pass,
-                Err(_) => false,
+                Ok(v) => Some(self.single_outcome(t, natural_dir(&v), pc) != Outcome::Pass),
+                Err(_) => None,
             }
         };
-        let class = |orig: &T, generalised: bool| -> String {
-            let v = eval(orig, pc).unwrap_or(V::N(0));
-            if generalised {
-                match v {
-                    V::S(_) => "str".to_string(),
-                    _ => format!("int:{}", Self::value_class(&v)),
+        let ops = operands(x);
+        if ops.is_empty() {
+            return match x {
+                T::L(i) => Pat::Leaf(*i),
+                other => Pat::Exact(other.clone()),
+            };
+        }
+        let mut cur = x.clone();
+        let mut pats = vec![];
+        for k in 0..ops.len() {
+            let (e, ctx_paren) = {
+                let o = operands(&cur);
+                (o[k].0.clone(), o[k].1)
+            };
+            let v = match eval(&e, pc) {
+                Ok(v) => v,
+                Err(_) => {
+                    pats.push(OpPat { form: Some(operand_form(&e, ctx_paren)), vc: None });
+                    continue;
                 }
-            } else {
-                format!("{}:{}", Self::form_of(orig), Self::value_class(&v))
+            };
+            let vc = value_class(&v);
+            let mut form = Some(operand_form(&e, ctx_paren));
+            let mut wrap_paren = false;
+            if let Some(lit) = literal_for(&v) {
+                let cand = with_operand(&cur, k, lit.clone());
+                if render(&cand) == render(&cur) || fails(&cand) == Some(true) {
+                    form = None;
+                    cur = cand;
+                } else if form.as_deref() == Some("(x)") {
+                    let cand = with_operand(&cur, k, T::P(Box::new(lit)));
+                    if fails(&cand) == Some(true) {
+                        cur = cand;
+                        wrap_paren = true;
+                    } else {
+                        form = Some(operand_form_detailed(&e));
+                    }
+                }
             }
-        };
+            let mut vcp = Some(vc);
+            if vc != "str" {
+                if form.is_none() || wrap_paren {
+                    let (mut probes, mut all) = (0, true);
+                    for val in [0i64, 1, 2, 256, -1] {
+                        let pv = V::N(val);
+                        if value_class(&pv) == vc {
+                            continue;
+                        }
+                        let mut lit = literal_for(&pv).unwrap();
+                        if wrap_paren {
+                            lit = T::P(Box::new(lit));
+                        }
+                        match fails(&with_operand(&cur, k, lit)) {
+                            Some(true) => probes += 1,
+                            Some(false) => {
+                                probes += 1;
+                                all = false;
+                            }
+                            None => {}
+                        }
+                    }
+                    if probes >= 1 && all {
+                        vcp = None;
+                    }
+                } else if matches!(e, T::L(_)) {
+                    vcp = None; // the leaf form fixes the value
+                }
+            }
+            pats.push(OpPat { form, vc: vcp });
+        }
         match x {
-            T::L(i) => {
-                let d = &LEAVES[*i as usize];
-                format!("expr:{}:{}", d.kind, d.form)
+            T::Not(_) => Pat::Un(0, pats.remove(0)),
+            T::Neg(_) => Pat::Un(1, pats.remove(0)),
+            T::P(_) => Pat::Un(2, pats.remove(0)),
+            T::B(op, _, _) => {
+                let l = pats.remove(0);
+                let r = pats.remove(0);
+                Pat::Bin(*op, l, r)
             }
-            T::Lit(_) => "expr:literal:dec".into(),
-            T::SLit(s) => format!("expr:string:{}", if s.contains('{') { "interpolated" } else { "plain" }),
-            T::Not(e) | T::Neg(e) | T::P(e) => {
-                let opname = match x {
-                    T::Not(_) => "!",
-                    T::Neg(_) => "-x",
-                    _ => "()",
-                };
-                let mut gen = false;
-                if let Ok(v) = eval(e, pc) {
-                    if let Some(lit) = Self::literal_for(&v) {
-                        if lit != **e {
-                            let cand = match x {
-                                T::Not(_) => T::Not(Box::new(lit)),
-                                T::Neg(_) => T::Neg(Box::new(lit)),
-                                _ => T::P(Box::new(lit)),
-                            };
-                            gen = fails(&cand);
-                        } else {
-                            gen = true;
-                        }
-                    }
-                }
-                format!("expr:{}:{}", opname, class(e, gen))
-            }
-            T::B(op, l, r) => {
-                let mut cur_l = (**l).clone();
-                let mut cur_r = (**r).clone();
-                let mut gl = false;
-                let mut gr = false;
-                if let Ok(v) = eval(l, pc) {
-                    if let Some(lit) = Self::literal_for(&v) {
-                        if lit == cur_l {
-                            gl = true;
-                        } else if fails(&T::B(*op, Box::new(lit.clone()), Box::new(cur_r.clone()))) {
-                            gl = true;
-                            cur_l = lit;
-                        }
-                    }
-                }
-                if let Ok(v) = eval(r, pc) {
-                    if let Some(lit) = Self::literal_for(&v) {
-                        if lit == cur_r {
-                            gr = true;
-                        } else if fails(&T::B(*op, Box::new(cur_l.clone()), Box::new(lit.clone()))) {
-                            gr = true;
-                            cur_r = lit;
-                        }
-                    }
-                }
-                let _ = (&cur_l, &cur_r);
-                format!("expr:{}:{},{}", OPS[*op as usize], class(l, gl), class(r, gr))
-            }
+            _ => unreachable!(),
         }
     }
 
@@ -910,10 +1061,10 @@ impl<'a> G<'a> {
             return;
         }
         // 1. is it the directive (truncation / encoding) or the expression?
-        let nat = Self::natural_dir(&it.value);
+        let nat = natural_dir(&it.value);
         let (sig, smallest_src) = if it.dir != nat && self.single_outcome(&it.tree, nat, it.pc) == Outcome::Pass {
             let class = match &it.value {
-                V::N(_) => Self::value_class(&it.value).to_string(),
+                V::N(_) => value_class(&it.value).to_string(),
                 V::S(s) => {
                     let mut c = String::new();
                     if s.chars().any(|ch| ch.is_ascii_lowercase()) {
@@ -931,8 +1082,10 @@ impl<'a> G<'a> {
             (format!("expr:{}:{}", it.dir.text().replace(' ', "-"), class), it.src.clone())
         } else {
             let (x, _o) = self.smallest(&it.tree, it.pc, f.outcome.clone());
-            self.staged_bad.lock().unwrap().insert(x.clone());
-            (self.signature(&x, it.pc), render(&x))
+            let pat = self.pattern(&x, it.pc);
+            let sig = pat.sig();
+            self.staged_bad.lock().unwrap().insert(pat);
+            (sig, render(&x))
         };
         let vtext = match &it.value {
             V::N(n) => format!("{}", n),
@@ -1139,7 +1292,7 @@ struct Batch {
 impl Batch {
     fn new() -> Batch {
         Batch {
-            items: Vec::with_capacity(BATCH),
+            items: Vec::with_capacity(batch_size()),
             pc: BASE_PC,
         }
     }
@@ -1174,7 +1327,7 @@ fn add(g: &G, loc: &mut Local, b: &mut Batch, tree: &T, dir: Dir) {
         Ok(item) => {
             b.pc += item.expect.len() as i64;
             b.items.push(item);
-            if b.items.len() >= BATCH {
+            if b.items.len() >= batch_size() {
                 flush(g, b);
             }
         }
@@ -1192,8 +1345,8 @@ fn process_tree(g: &G, loc: &mut Local, dirs: DirMode, tree: &T, bd: &mut Batch,
             return;
         }
     };
-    if g.bad_nonempty.load(Ordering::Relaxed) && contains_any(tree, &g.bad.read().unwrap()) {
-        loc.count("not_run_contains_subtree_that_already_failed_alone");
+    if g.bad_nonempty.load(Ordering::Relaxed) && contains_instance(tree, &g.bad.read().unwrap(), bd.pc) {
+        loc.count("not_run_contains_instance_of_a_failing_signature");
         return;
     }
     loc.count("trees_in_domain");
@@ -1284,10 +1437,15 @@ fn run_list(g: &G, name: &str, trees: &[T], dirs: DirMode) {
 }
 
 fn merge_bad(g: &G) {
-    let staged: Vec<T> = g.staged_bad.lock().unwrap().drain().collect();
+    let mut staged: Vec<Pat> = g.staged_bad.lock().unwrap().drain().collect();
+    staged.sort();
     if !staged.is_empty() {
         let mut bad = g.bad.write().unwrap();
-        bad.extend(staged);
+        for p in staged {
+            if !bad.contains(&p) {
+                bad.push(p);
+            }
+        }
         g.bad_nonempty.store(true, Ordering::Relaxed);
     }
 }
@@ -1458,6 +1616,28 @@ pub fn run(ctx: &Ctx, replay_case: Option<&Value>) -> i32 {
     if let Some(c) = replay_case {
         return replay(c);
     }
+    if std::env::var("C03_BENCH").is_ok() {
+        let mut text = String::from(PRELUDE);
+        text.push_str("* = $2004\n");
+        let per_line: usize = std::env::var("C03_BENCH").unwrap().parse().unwrap_or(1);
+        for i in 0..(200 / per_line) {
+            text.push_str(".dword ");
+            for k in 0..per_line {
+                if k > 0 { text.push_str(", "); }
+                text.push_str(&format!("(c + {}) * 7 - l", i));
+            }
+            text.push('\n');
+        }
+        let t = std::time::Instant::now();
+        for _ in 0..50 { let _ = probe::parse_files(&[("main.asm", &text)]); }
+        let tp = t.elapsed().as_secs_f64() / 50.0;
+        let t = std::time::Instant::now();
+        let mut passes = 0;
+        for _ in 0..50 { let b = probe::asm(&text).unwrap(); passes = b.passes; assert!(b.ok()); }
+        let ta = t.elapsed().as_secs_f64() / 50.0;
+        println!("parse {:.1} us/expr, parse+codegen {:.1} us/expr, passes {}", tp * 1e6 / 200.0, ta * 1e6 / 200.0, passes);
+        return 0;
+    }
     if let Err(e) = self_check() {
         eprintln!("C03: MACHINERY: {}", e);
         return 2;
@@ -1465,7 +1645,7 @@ pub fn run(ctx: &Ctx, replay_case: Option<&Value>) -> i32 {
     let thorough = ctx.tier.is_thorough();
     let g = G {
         ctx,
-        bad: RwLock::new(HashSet::new()),
+        bad: RwLock::new(vec![]),
         bad_nonempty: AtomicBool::new(false),
         staged_bad: Mutex::new(HashSet::new()),
         memo: Mutex::new(HashMap::new()),
@@ -1508,10 +1688,10 @@ pub fn run(ctx: &Ctx, replay_case: Option<&Value>) -> i32 {
 
     ctx.set("max_binary_operators", json!(fams.iter().map(|f| f.n).max().unwrap_or(0)));
     ctx.set("trees_per_operator_count", json!(bound));
-    ctx.set("batch_size", json!(BATCH));
+    ctx.set("batch_size", json!(batch_size()));
     ctx.set("distinct_integer_values_expected", json!(g.values.lock().unwrap().len()));
     ctx.set("distinct_string_values_expected", json!(g.strings.lock().unwrap().len()));
-    ctx.set("subtrees_failing_alone", json!(g.bad.read().unwrap().iter().map(render).collect::<Vec<_>>()));
+    ctx.set("failing_signatures_used_to_skip_larger_trees", json!(g.bad.read().unwrap().iter().map(|p| p.sig()).collect::<Vec<_>>()));
 
     ctx.finish(
         "exploration",
